@@ -20,6 +20,47 @@ type Input struct {
 	Cap    int           `json:"cap"`
 	Pre    [][]byte      `json:"pre,omitempty"` // names already in the second dictionary
 	Mode   string        `json:"mode,omitempty"`
+	Bad    *BadSpec      `json:"bad,omitempty"` // corrupt the SerializeNoDict output and decode it (model only)
+}
+
+// BadSpec describes one corruption of the self-contained stream. Only used with trees whose stream consists of
+// bytes < 0x80 and with values < 0x80, so that no misaligned read can yield a large child count (the decoder
+// walks the remaining input once per announced child: a huge count is finding D13's business, not this check's).
+type BadSpec struct {
+	Kind string `json:"kind"` // trunc | set | ins | hugelen
+	Pos  int    `json:"pos"`
+	Val  uint64 `json:"val"`
+}
+
+func corrupt(b []byte, s *BadSpec) []byte {
+	out := append([]byte{}, b...)
+	pos := 0
+	if len(out) > 0 {
+		pos = s.Pos % len(out)
+	}
+	switch s.Kind {
+	case "trunc":
+		return out[:pos]
+	case "set":
+		if len(out) > 0 {
+			out[pos] = byte(s.Val & 0x7f)
+		}
+		return out
+	case "ins":
+		return append(append(append([]byte{}, out[:pos]...), byte(s.Val&0x7f)), out[pos:]...)
+	default: // hugelen: replace the root's name length (position 0 is always a name length) by a big varint
+		var v []byte
+		x := s.Val
+		for x >= 0x80 {
+			v = append(v, byte(x)|0x80)
+			x >>= 7
+		}
+		v = append(v, byte(x))
+		if len(out) > 0 {
+			out = out[1:]
+		}
+		return append(v, out...)
+	}
 }
 
 func build(in Input) *tree.Tree {
@@ -88,6 +129,15 @@ func run(in Input) lib.Result {
 		}
 		return tree.DeserializeNoDict(bytes.NewReader(buf.Bytes()))
 	})
+	bad := "None"
+	if in.Bad != nil {
+		var buf bytes.Buffer
+		if err := t.SerializeNoDict(in.Cap, &buf); err == nil {
+			bb := corrupt(buf.Bytes(), in.Bad)
+			res := optTree(func() (*tree.Tree, error) { return tree.DeserializeNoDict(bytes.NewReader(bb)) })
+			bad = lib.Some(lib.Pair(lib.Bytes(bb), res))
+		}
+	}
 	after := treeu.Coq(t.VerifDump())
 
 	var totals []uint64
@@ -113,7 +163,7 @@ func run(in Input) lib.Result {
 	}
 	coq := "{| c_orig := " + before + "; c_cap := " + lib.Nat(in.Cap) + "; c_pre := " + lib.BytesList(in.Pre) +
 		"; c_minval := " + lib.N(minv) + "; c_dec_fresh := " + fresh + "; c_dec_pre := " + pre +
-		"; c_dec_nodict := " + nodict + "; c_src_untouched := " + lib.Bool(before == after) + " |}"
+		"; c_dec_nodict := " + nodict + "; c_src_untouched := " + lib.Bool(before == after) + "; c_bad := " + bad + " |}"
 	mode := in.Mode
 	if mode == "" {
 		mode = "wf"
@@ -123,9 +173,16 @@ func run(in Input) lib.Result {
 		NonTrivial: ties > 0 || (in.Cap >= n-1 && in.Cap <= n+1),
 		Feat: map[string]interface{}{"nodes_class": sizeClass(n), "cap_vs_nodes": rel, "ties_class": sizeClass(ties),
 			"zero_total_nodes_class": sizeClass(zeros), "mode": mode, "built_by": builtBy(in), "pre_dict": len(in.Pre) > 0,
-			"threshold_zero": minv == 0},
+			"threshold_zero": minv == 0, "malformed_stream": badKind(in)},
 		Obs: map[string]interface{}{"nodes": n, "minval": minv},
 	}
+}
+
+func badKind(in Input) string {
+	if in.Bad == nil {
+		return "none"
+	}
+	return in.Bad.Kind
 }
 
 func builtBy(in Input) string {
@@ -168,7 +225,7 @@ func longName(r *rand.Rand) []byte {
 func genTree(r *rand.Rand, n int, mode string) *treeu.JNode {
 	nodes := make([]*treeu.JNode, n)
 	rootName := []byte{}
-	if r.Intn(8) == 0 {
+	if r.Intn(8) == 0 && mode != "wf7" {
 		rootName = lib.Pick(r, names)
 	}
 	nodes[0] = &treeu.JNode{Name: rootName}
@@ -182,7 +239,9 @@ func genTree(r *rand.Rand, n int, mode string) *treeu.JNode {
 		// pick a name not yet used among the siblings (unless duplicates are wanted)
 		var nm []byte
 		for try := 0; try < 40; try++ {
-			if r.Intn(40) == 0 {
+			if mode == "wf7" {
+				nm = lib.Pick(r, [][]byte{[]byte("a"), []byte("b"), []byte("c"), []byte("ab"), []byte("abc"), []byte(""), []byte("main"), {0x01, 0x02}, []byte("z")})
+			} else if r.Intn(40) == 0 {
 				nm = longName(r)
 			} else if r.Intn(6) == 0 {
 				nm = []byte{byte(r.Intn(256)), byte(r.Intn(4))}
@@ -222,6 +281,9 @@ func genTree(r *rand.Rand, n int, mode string) *treeu.JNode {
 			nd.Self = uint64(r.Intn(4))
 		default:
 			nd.Self = uint64(lib.Pick(r, []int{0, 1, 7, 127, 128, 300, 1 << 20}))
+		}
+		if mode == "wf7" && nd.Self > 127 {
+			nd.Self = 127
 		}
 	}
 	var fix func(nd *treeu.JNode) uint64
@@ -279,8 +341,22 @@ func gen(r *rand.Rand, idx int, tier string) Input {
 		t := treeu.Build(in.Stacks)
 		in.Cap = pickCap(r, treeu.Size(t.VerifDump()))
 		return in
-	case x < 17:
+	case x < 15:
 		in.Mode = "wf"
+	case x < 17: // 7-bit stream + one corruption
+		in.Mode = "wf7"
+		n := lib.Range(r, 1, 14)
+		in.Tree = genTree(r, n, "wf7")
+		in.Cap = pickCap(r, n)
+		kind := lib.Pick(r, []string{"trunc", "trunc", "set", "set", "ins", "hugelen"})
+		in.Bad = &BadSpec{Kind: kind, Pos: r.Intn(1 << 16), Val: uint64(r.Intn(128))}
+		if kind == "set" && r.Intn(2) == 0 {
+			in.Bad.Val = uint64(r.Intn(4))
+		}
+		if kind == "hugelen" {
+			in.Bad.Val = lib.Pick(r, []uint64{1<<64 - 1, 1 << 63, 1<<63 - 1, 1 << 62, 200, 127, 1, 0, 1 << 32})
+		}
+		return in
 	case x == 17:
 		in.Mode = "dup"
 	case x == 18:
